@@ -68,3 +68,83 @@ Theorem C07_delete_removes_only : forall (ids : list N) (dry brk : bool) (hint :
   emits_only (delete_op ids) (delete_prog ids dry brk hint).
 Proof. exact delete_emits. Qed.
 Print Assumptions C07_delete_removes_only.
+
+(* ---- two backups racing on one archive, for EVERY interleaving of their storage
+        operations (run2: an arbitrary schedule sigma).  The atomicity of one storage
+        operation, which run2 takes for granted, is what the exclusive-creation stress in
+        the C07 check observes on the implementation. ---- *)
+From Coq Require Import List NArith.
+From CV Require Import Race RaceP Race2 Race2P.
+Local Open Scope N_scope.
+
+(* Nothing that existed is altered or removed, at any point of the race. *)
+Theorem C07_race_existing_files_kept :
+  forall (pre : bytes -> N) (c1 : cfg) (src1 : list sitem) (c2 : cfg) (src2 : list sitem) (a0 : arch) (sigma : list bool),
+    let x := run2 pre (backup_prog pre c1 src1) (backup_prog pre c2 src2) a0 sigma in
+    Forall (Old a0) (trace_states pre a0 (tr2 x))
+    /\ last (trace_states pre a0 (tr2 x)) a0 = st2 x
+    /\ (forall f c, get a0 f = Some c -> nonempty c = true -> get (st2 x) f = Some c)
+    /\ (forall d, has_dir a0 d = true -> has_dir (st2 x) d = true)
+    /\ (forall f, get a0 f = Some Empty ->
+          get (st2 x) f = Some Empty
+          \/ exists who pl, In (who, (OpWrite f pl CreateNew, ROk)) (tr2 x) /\ get (st2 x) f = Some (Good pl)).
+Proof. exact race_existing_files_kept. Qed.
+Print Assumptions C07_race_existing_files_kept.
+
+(* No path receives two successful writes, by one actor or by both. *)
+Theorem C07_race_no_path_written_twice :
+  forall (pre : bytes -> N) (c1 : cfg) (src1 : list sitem) (c2 : cfg) (src2 : list sitem) (a0 : arch) (sigma : list bool)
+         (i j : nat) (x y : bool) (f : fpath) (p1 : payload) (m1 : wmode) (p2 : payload) (m2 : wmode),
+    let tr := tr2 (run2 pre (backup_prog pre c1 src1) (backup_prog pre c2 src2) a0 sigma) in
+    (i < j)%nat ->
+    nth_error tr i = Some (x, (OpWrite f p1 m1, ROk)) ->
+    nth_error tr j = Some (y, (OpWrite f p2 m2, ROk)) -> False.
+Proof. exact race_no_path_written_twice. Qed.
+Print Assumptions C07_race_no_path_written_twice.
+
+(* No version receives files from both backups. *)
+Theorem C07_race_versions_not_shared :
+  forall (pre : bytes -> N) (c1 : cfg) (src1 : list sitem) (c2 : cfg) (src2 : list sitem) (a0 : arch) (sigma : list bool)
+         (b : N) (i j : nat) (o1 o2 : op),
+    let tr := tr2 (run2 pre (backup_prog pre c1 src1) (backup_prog pre c2 src2) a0 sigma) in
+    nth_error tr i = Some (false, (o1, ROk)) -> band_put o1 = Some b ->
+    nth_error tr j = Some (true, (o2, ROk)) -> band_put o2 = Some b -> False.
+Proof. exact race_bands_not_shared. Qed.
+Print Assumptions C07_race_versions_not_shared.
+
+(* The loser fails: the backup whose BANDHEAD write is refused returns the error result and
+   NONE of its writes succeeded, before or after. *)
+Theorem C07_race_loser_fails :
+  forall (pre : bytes -> N) (c1 : cfg) (src1 : list sitem) (c2 : cfg) (src2 : list sitem) (a0 : arch) (sigma : list bool)
+         (x : bool) (b : N) (pl : payload) (m : wmode) (rep : reply),
+    let X := run2 pre (backup_prog pre c1 src1) (backup_prog pre c2 src2) a0 sigma in
+    In (x, (OpWrite (PHead b) pl m, rep)) (tr2 X) -> rep <> ROk ->
+    out_of x X = Store.Done fail0 /\ (forall o r, In (x, (o, r)) (tr2 X) -> is_write o = true -> r <> ROk).
+Proof. exact race_loser_fails. Qed.
+Print Assumptions C07_race_loser_fails.
+
+(* When both pick the same id: both create_dir calls succeed (create_dir accepts an existing
+   directory), both try to write BANDHEAD, exactly one succeeds and the other fails as above. *)
+Theorem C07_race_same_id :
+  forall (pre : bytes -> N) (c1 : cfg) (src1 : list sitem) (c2 : cfg) (src2 : list sitem) (a0 : arch) (sigma : list bool)
+         (b : N) (r1 r2 : reply),
+    let X := run2 pre (backup_prog pre c1 src1) (backup_prog pre c2 src2) a0 sigma in
+    In (false, (OpMkdir (DBand b), r1)) (tr2 X) -> In (true, (OpMkdir (DBand b), r2)) (tr2 X) ->
+    r1 = ROk /\ r2 = ROk
+    /\ (exists h1 h2, In (false, (head_w b, h1)) (tr2 X) /\ In (true, (head_w b, h2)) (tr2 X)
+                      /\ ~ (h1 = ROk /\ h2 = ROk))
+    /\ (Conf.WFparents pre a0 ->
+        exists w, In (w, (head_w b, ROk)) (tr2 X) /\ In (negb w, (head_w b, RErr EAlreadyExists)) (tr2 X)
+                  /\ out_of (negb w) X = Store.Done fail0
+                  /\ (forall o r, In (negb w, (o, r)) (tr2 X) -> is_write o = true -> r <> ROk)).
+Proof. exact race_same_id. Qed.
+Print Assumptions C07_race_same_id.
+
+(* Both new ids are above every existing version. *)
+Theorem C07_race_band_ids_fresh :
+  forall (pre : bytes -> N) (c1 : cfg) (src1 : list sitem) (c2 : cfg) (src2 : list sitem) (a0 : arch) (sigma : list bool)
+         (x : bool) (id : N) (rep : reply) (b : N),
+    In (x, (OpMkdir (DBand id), rep)) (tr2 (run2 pre (backup_prog pre c1 src1) (backup_prog pre c2 src2) a0 sigma)) ->
+    has_dir a0 (DBand b) = true -> b < id.
+Proof. exact race_band_ids_fresh. Qed.
+Print Assumptions C07_race_band_ids_fresh.
